@@ -46,6 +46,9 @@ unsafe extern "C" {
 pub unsafe fn libc_exit(code: i32) -> ! {
     let _ = std::io::stdout().flush();
     let _ = std::io::stderr().flush();
+    if cfg!(miri) {
+        std::process::exit(code)
+    }
     unsafe { _exit(code) }
 }
 
@@ -186,6 +189,9 @@ fn fmt_u64(mut v: u64, out: &mut [u8]) -> usize {
     i
 }
 pub fn install_signal_handlers() {
+    if cfg!(miri) {
+        return; // Miri reports the faults these handlers exist for by itself
+    }
     unsafe {
         for sig in [11, 7, 6, 4, 8] {
             signal(sig, on_fatal as usize);
